@@ -53,6 +53,50 @@ def drain_monitors(ctx, idx, payload, own=(), background=True):
     return out
 
 
+import contextlib
+
+
+@contextlib.contextmanager
+def warnings_are_errors(ctx=None):
+    """The environment of a test-suite run with `-W error` / pytest's filterwarnings=error: every warning the library issues is
+    raised (deprecation notices of third-party packages are left alone).  Nothing in the claimed spaces warns on the unchanged tree."""
+    import warnings
+    with warnings.catch_warnings():
+        warnings.simplefilter("error")
+        for cat in (DeprecationWarning, PendingDeprecationWarning, ResourceWarning, ImportWarning):
+            warnings.simplefilter("ignore", cat)
+        if ctx is not None:
+            ctx.count("cases_run_with_warnings_as_errors")
+        yield
+
+
+def text_file_roundtrip(doc, fmt, **kw):
+    """serialize() to a *text file opened by the caller in a non-UTF-8 codec* (latin-1 / cp1252 when the text fits, else utf-16),
+    closed, re-opened with the same codec and read: a text stream takes text, whatever bytes its owner turns it into."""
+    import tempfile
+    probe = doc.serialize(format=fmt, **kw)
+    enc = "utf-16"
+    for cand in ("latin-1", "cp1252"):
+        try:
+            probe.encode(cand)
+            enc = cand
+            break
+        except UnicodeEncodeError:
+            pass
+    fd, path = tempfile.mkstemp(prefix="pv-text-", suffix="." + fmt, dir=os.environ.get("TMPDIR"))
+    os.close(fd)
+    try:
+        with open(path, "w", encoding=enc, newline="") as f:
+            doc.serialize(f, format=fmt, **kw)
+        with open(path, "r", encoding=enc, newline="") as f:
+            return f.read(), enc
+    finally:
+        try:
+            os.remove(path)
+        except OSError:
+            pass
+
+
 ELSEWHERE = {"one_in": 0, "built": 0, "failed": 0}     # set by the checks that accept documents built in another process
 _CHILD = r"""
 import sys, json, pickle
